@@ -263,7 +263,7 @@ def run_pipe(h, scratch):
         o = os.path.join(scratch, "o.bin")
         probe = TTFont(src, lazy=True)
         go = probe.getGlyphOrder()
-        keep = [g for g in go if r.random() < 0.6] or go[:1]
+        keep = [g for g in go if r.random() < h.get("keep", 0.6)] or go[:1]
         args = [src, "--output-file=" + o, "--glyphs=" + ",".join(keep[:400]), "--no-recalc-timestamp", "--notdef-outline"]
         if h.get("recalc_bounds"):
             args.append("--recalc-bounds")
